@@ -50,6 +50,38 @@ class Obligation:
         self.model_vars = model_vars or {}
 
 
+def _prune_solver(timeout_ms):
+    """solver for feasibility / quick-proof queries.  The legacy simplex (arith.solver=2) is used here: with the default
+    LP-based arithmetic z3 5.1 was observed (rarely, timing dependent) to spend tens of minutes inside
+    lp::static_matrix without honouring the timeout during path pruning.  Only pruning is affected - obligations are
+    solved with the default configuration."""
+    s = z3.Solver()
+    s.set("timeout", timeout_ms)
+    s.set("arith.solver", 2)
+    return s
+
+
+def _has_quantifier(f, _cache={}):
+    k = f.get_id()
+    if k in _cache:
+        return _cache[k]
+    seen = set()
+    todo = [f]
+    r = False
+    while todo:
+        t = todo.pop()
+        i = t.get_id()
+        if i in seen:
+            continue
+        seen.add(i)
+        if z3.is_quantifier(t):
+            r = True
+            break
+        todo.extend(t.children())
+    _cache[k] = r
+    return r
+
+
 class Explorer:
     """Runs `fn(ctx)` once per feasible path."""
 
@@ -84,6 +116,7 @@ class Ctx:
         self.decisions: list[bool] = []
         self.alts: list[tuple] = []
         self.pc: list = []
+        self.dec_pos: list[int] = []
         self.taint: str | None = None
         self._fresh = 0
         self._solver = None
@@ -109,9 +142,32 @@ class Ctx:
         if self.taint is None:
             self.taint = why
 
+    def _qf_pc(self):
+        """the quantifier-free conjuncts of the path condition (a SUBSET of the hypotheses, so unsat/valid answers
+        obtained from it carry over to the full path condition); cached incrementally"""
+        n, qf = getattr(self, "_qf_cache", (0, []))
+        for f in self.pc[n:]:
+            if not _has_quantifier(f):
+                qf.append(f)
+        self._qf_cache = (len(self.pc), qf)
+        return qf
+
     def _feasible(self, cond):
-        s = z3.Solver()
-        s.set("timeout", self.ex.prune_timeout_ms)
+        # stage 1: quantifier-free subset only - fast, and an unsat answer is sound for pruning
+        qf = self._qf_pc()
+        budget = self.ex.prune_timeout_ms
+        if len(qf) != len(self.pc):
+            s = _prune_solver(self.ex.prune_timeout_ms)
+            s.add(*qf)
+            s.add(cond)
+            r1 = s.check()
+            if r1 == z3.unsat:
+                return False
+            if r1 == z3.sat:
+                # the quantifier-free part has a model: the quantified hypotheses rarely refute the branch, and when they
+                # do it is quick - a shorter budget (a missed pruning only costs an extra, vacuous, path)
+                budget = min(budget, 60)
+        s = _prune_solver(budget)
         s.add(*self.pc)
         s.add(cond)
         r = s.check()
@@ -141,9 +197,21 @@ class Ctx:
                 raise PathEnd()
         self.decisions.append(d)
         self.pc.append(cond if d else z3.Not(cond))
+        self.dec_pos.append(len(self.pc))  # path-condition length just after each decision (vacuity guard)
         return d
 
-    def prove_quick(self, f, timeout_ms=500) -> bool:
+    def prove_quick(self, f, timeout_ms=500, qf_first_only=False) -> bool:
+        """qf_first_only: when the quantifier-free subset of the path condition does not prove f, give up (False)
+        instead of retrying with the quantified hypotheses (callers fall back to a weaker encoding)"""
+        qf = self._qf_pc()
+        if len(qf) != len(self.pc):
+            s = _prune_solver(timeout_ms)
+            s.add(*qf)
+            s.add(z3.Not(f))
+            if s.check() == z3.unsat:
+                return True
+            if qf_first_only:
+                return False
         s = z3.Solver()
         s.set("timeout", timeout_ms)
         s.add(*self.pc)
